@@ -50,7 +50,7 @@ func genCase(t *rapid.T) Case {
 	o := gen.TreeOpts{
 		Layouts: layouts, Kinds: append(append([]string{}, gen.AllKinds...), model.GeometryCollection, model.LinearRing),
 		Floats: gen.AllBits, MaxDepth: 4, MaxParts: 3, MaxPts: 4, MixLayouts: rapid.Bool().Draw(t, "mix"),
-		FixedCollectionPct: 40, PEmpty: 25,
+		FixedCollectionPct: 40, PEmpty: 25, LongPct: 1, LongMax: 200,
 	}
 	if mode == "ewkb" {
 		o.SRID = gen.SRIDs
